@@ -1,0 +1,12 @@
+//go:build verif
+
+// Contracts for package protoutil, read by /verif/gvc (comment-only file; it declares
+// nothing and is compiled only with -tags verif).
+package protoutil
+
+// AsStringList only reads its argument and builds a new slice of the same length.
+//@ func AsStringList
+//@   property C01
+//@   pure
+//@   ensures nil: src == nil ==> len(result) == 0
+//@   ensures len: src != nil ==> len(result) == len(src.Values)
